@@ -114,6 +114,11 @@ func c07StepCase(con *c07Construct, extra, above, flow, quote, prefix, preceding
 		tokOff = spaces + con.off
 	} else {
 		content = strings.Repeat("p", prefix)
+		if quote != 1 && prefix > 0 {
+			// text before the placeholder with apostrophes in it (one column each outside a
+			// single-quoted scalar, which the claimed class leaves out when it holds a quote)
+			content = "i'p'x'q'y"[:prefix]
+		}
 		if prefix > 0 {
 			content += " "
 		}
